@@ -68,8 +68,10 @@ package commands
 // whose content hashes to the id that names the destination, and the temp
 // file lives outside the object store.
 //@ func clean
-//@   props C01 C08 C09
+//@   props C01 C08 C09 C12
 //@   requires @inv gf != nil && gf.cfg != nil && from != nil && to != nil && reads_ok(from) && ext_count(gf.cfg) == 0
+//@   ensures result0 != nil ==> result0.Oid == hexsha(old(rrest(from))) && result0.Size == len(old(rrest(from)))
+//@   ensures result0 != nil && result0.Oid != fs.EmptyObjectSHA256 && !old(fexists(objpath(hexsha(rrest(from))))) ==> fexists(objpath(result0.Oid)) && fdata(objpath(result0.Oid)) == old(rrest(from))
 //@   at call (io.Writer).Write:1 assert bytesOf(arg1__) == old(rrest(from)) && len(old(rrest(from))) < 1024
 //@   at call os.Rename:1 assert hexsha(fdata(arg0__)) == cleaned.Oid && !isobj(arg0__) && (arg1__ == objpath(cleaned.Oid) || arg1__ == devnull)
 //@   at call os.Rename:1 assert fdata(arg0__) == old(rrest(from)) && cleaned.Size == len(old(rrest(from)))
@@ -558,3 +560,32 @@ package commands
 //@   assumed
 //@   props C14
 //@   modifies fresh
+
+// C12: what migrate does to a blob.  Import: .gitattributes and blobs below
+// the --above threshold are returned untouched; any other selected blob is run
+// through clean with its own content and path (so, by clean's contract, local
+// storage then holds that content under the id the new pointer names), and the
+// blob returned is the buffer clean wrote the pointer to.  Export: a blob that
+// is not a pointer is returned untouched; a pointer is replaced by the file
+// at the object path of the id it names.
+//@ func migrateImportCommand$1
+//@   props C12
+//@   requires @inv b != nil && b.Contents != nil && reads_ok(b.Contents) && gitfilter != nil && gitfilter.cfg != nil && ext_count(gitfilter.cfg) == 0
+//@   ensures path_base(path) == ".gitattributes" ==> result0 == b && result1 == nil
+//@   at call commands.clean:1 assert arg2__ == b.Contents && arg3__ == path && arg0__ == gitfilter && dyntype(arg1__, "*bytes.Buffer") && wbytes(ptr_as(arg1__, "bytes.Buffer")) == ""
+//@ func migrateExportCommand$1
+//@   props C12
+//@   requires @inv b != nil && b.Contents != nil && gitfilter != nil
+//@   ensures path_base(path) == ".gitattributes" ==> result0 == b && result1 == nil
+//@   at call v2.NewBlobFromFile:1 assert ptr != nil && (arg0__ == objpath(ptr.Oid) || arg0__ == devnull)
+//@ func (*github.com/git-lfs/git-lfs/v3/lfs.GitFilter).ObjectPath
+//@   assumed
+//@   props C12
+//@   modifies fresh
+//@   ensures result1 == nil && oid != fs.EmptyObjectSHA256 ==> result0 == objpath(oid)
+//@   ensures result1 == nil && oid == fs.EmptyObjectSHA256 ==> result0 == devnull
+//@ func github.com/git-lfs/git-lfs/v3/lfs.DecodePointer
+//@   assumed
+//@   props C12
+//@   modifies fresh, ghost rrest[reader]
+//@   ensures result1 == nil ==> result0 != nil
